@@ -304,6 +304,50 @@ def run(tier, fx=None, ck=None, control=False):
             ck.finding("E9.number-test-by-type", "E9.number-test-by-type/%s/%s" % (f9.path, v9), F.short_span(sp9),
                        "`%s` emits Op::%s that %s: such a test separates NaN from the other numbers, it is not a test for `number` "
                        "(`enum E { A = NaN }`: tsc emits `E[E[\"A\"] = NaN] = \"A\"`, so `E[NaN]` is \"A\")" % (f9.path, v9, why9))
+    # ------------------------------------------------------------ PP4 the registers of deferred parameter-property stores stay reserved until the stores are emitted
+    if own:
+        ck.rule("PP4.deferred-store-registers-live", "a register recorded in a list that a deferred emitter (a closure called later) reads is not handed back to the "
+                "allocator at a point from which that emitter can still run", floor=1)
+        n4 = 0
+        for p4, f4 in sorted(fx.fns.items()):
+            if f4.derived or f4.closure or not f4.file.startswith("src/compiler"):
+                continue
+            vecs = [l for l in range(len(f4.locals)) if fx.tys(f4.locals[l]).startswith("std::vec::Vec<(") and "u8" in fx.tys(f4.locals[l])]
+            if not vecs:
+                continue
+            # closures of this function that capture (a reference to) such a list
+            emitters = {}
+            for bl in f4.blocks:
+                for s_ in bl["s"]:
+                    if s_[0] == "a" and s_[2][0] == "agg" and isinstance(s_[2][1], dict) and s_[2][1].get("k") == "closure":
+                        caps = set()
+                        for cap in s_[2][2]:
+                            if cap[0] in ("c", "m"):
+                                caps |= ancestors(f4, cap[1][0]) & set(vecs)
+                        if caps:
+                            emitters[s_[2][1].get("p")] = caps
+            if not emitters:
+                continue
+            runs = [(bi, t[1].get("d")) for bi, t in f4.calls() if t[1].get("d") in emitters]
+            for bi, t in f4.calls():
+                if not (t[1].get("d") or "").endswith("::free_register") or len(t[2]) < 2 or t[2][1][0] not in ("c", "m"):
+                    continue
+                src = ancestors(f4, t[2][1][1][0]) & set(vecs)
+                if not src:
+                    continue
+                n4 += 1
+                after = f4.reachable_from(bi)
+                bad = [rb for rb, q in runs if rb in after and (emitters[q] & src)]
+                ck.instance("PP4.deferred-store-registers-live", "%s: free_register of a register recorded in `%s`" % (p4, f4.var_name(sorted(src)[0]) or "list"),
+                            F.short_span(t[6]), ok=not bad)
+                if bad:
+                    ck.finding("PP4.deferred-store-registers-live", "PP4.deferred-store-registers-live/%s" % p4, F.short_span(t[6]),
+                               "`%s` frees a register that is recorded in `%s` while the closure that emits the recorded stores can still run: the allocator hands the "
+                               "register to the `super(...)` call compiled in between, and `constructor(public x = 5) { super() }` stores the wrong value in `this.x`"
+                               % (p4, f4.var_name(sorted(src)[0]) or "a list"))
+        for p4, f4 in fx.fns.items():
+            if not f4.derived and not f4.closure and p4.endswith("compile_constructor_body"):
+                ck.instance("PP4.deferred-store-registers-live", "%s examined (%d frees of recorded registers outside the emitter)" % (p4, n4), F.short_span(f4.span), nontrivial=False)
     if not own:
         return None
     ctl = F.load_fixture()
